@@ -50,6 +50,13 @@ Theorem C03_names_all_present_modulo_known : forall e c g,
 Proof. exact names_all_present. Qed.
 Print Assumptions C03_names_all_present_modulo_known.
 
+(* a dotted chain r.x1...xn is stored as one ExprAttribute whose i-th name has the (i-1)-th as parent, so that
+   ExprName.path of the i-th name is the dotted prefix r.x1...xi (what name resolution follows) *)
+Theorem C03_dotted_chain_parent_links : forall cx r x attrs,
+  build cx (chain_expr (PName r) (x :: attrs)) = Some (GAttribute (GName r ParScope :: chain_names r (x :: attrs))).
+Proof. exact dotted_chain_parent_links. Qed.
+Print Assumptions C03_dotted_chain_parent_links.
+
 (* the statement without gap hypothesis is false of the faithful model: one witness per known finding
    (each is replayed on the implementation on every run) *)
 Theorem C03_render_refuted : exists e, wf e = true /\ ~ render_claim P_TEST e.
